@@ -13,12 +13,10 @@ C08 — a type's output is independent of the other types in the same run.
 Three groups of theorems (all for arbitrary type lists, states, files – nothing is bounded):
 
 * reset      – the per-type output of a generator step does not depend on the incoming long-lived state.
-               Stated for every value of the `Leaks` parameter; FALSE for the code at the pinned commit
-               (`codeToday`), so the instance for today's code is `C08_reset_partial` (the carried state is
-               not *relevant* for the type) plus one witness theorem per leak.
-               FULL STATEMENT (holds once `codeToday = noLeaks`, i.e. after the `fix:` commits):
-                 ∀ files st t, (step codeToday files st t).2 = (step codeToday files init t).2
-               — that is `C08_reset` below with `lk := codeToday`.
+               Stated for every value of the `Leaks` parameter (`C08_reset`) and, since the `fix:` commits 2659527
+               and 002876f made `codeToday = noLeaks`, at full strength for the code at HEAD (`C08_reset_today`,
+               `C08_run`): every state, every type list.  The model of the code BEFORE those commits
+               (`codeBeforeFix`) stays available; the lemmas about it live in Proofs/GenState.lean.
 * loop       – `Generate` over a type list yields, type by type, what separate processes yield
                (`oneAtATime`), and a permuted list yields the permuted outputs.
 * merge      – `MergeSources`: declarations, own doc comments, imports (first occurrence, no duplicates),
@@ -43,22 +41,13 @@ theorem C08_reset (lk : Leaks) (h : lk = noLeaks) (fl : NFlags) (files : Disk) :
 theorem C08_reset_simple (files : Disk) (s : Unit) (t : SType) :
     (simpleMachine.step files s t).2 = (simpleMachine.step files simpleMachine.init t).2 := rfl
 
-/-- today's code, `new`: the output equals the fresh-generator output whenever the carried `hasNew` /
-    `getsetMethods` are not relevant for the type (region `WF` of the correspondence).
-    Missing for the full statement: the two leaks (witnesses below). -/
-theorem C08_reset_partial (fl : NFlags) (files : Disk) (st : NSt) (t : NType)
-    (h1 : hasNewRelevant st t = false) (h2 : accRelevant fl st t = false) :
-    (newStep codeToday fl files st t).2 = (newStep codeToday fl files {} t).2 :=
-  newStep_irrelevant fl files st t h1 h2
+/-- the code at HEAD: full statement, for every state (reachable or not), every type, `new` and `map` -/
+theorem C08_reset_today (fl : NFlags) (files : Disk) :
+    (∀ (st : NSt) (t : NType), (newStep codeToday fl files st t).2 = (newStep codeToday fl files {} t).2) ∧
+    (∀ (st : MSt) (t : MType), (mapStep codeToday files st t).2 = (mapStep codeToday files {} t).2) :=
+  C08_reset codeToday rfl fl files
 
-/-- today's code, `map`: likewise when no constructor / accessor list of an earlier ShootNew type is left
-    over for a type that is not a ShootNew type itself -/
-theorem C08_reset_map_partial (files : Disk) (st : MSt) (t : MType)
-    (h1 : mapCtorRelevant st t = false) (h2 : mapAccRelevant st t = false) :
-    (mapStep codeToday files st t).2 = (mapStep codeToday files {} t).2 :=
-  mapStep_irrelevant files st t h1 h2
-
-/-! witnesses (concrete inputs; the state is the one reached after processing the first type) -/
+/-! concrete inputs (the shapes that leaked before the fixes; now asserted in `WF`) -/
 
 def wA : NType :=
   { name := "A", file := "t.shootnew.a.go", gs := [],
@@ -66,65 +55,11 @@ def wA : NType :=
 def wB : NType :=
   { name := "B", file := "t.shootnew.b.go", gs := [],
     tree := .field { name := "x" } (.field { name := "y", ptype := "string" } .nil) }
-
-/-- F_hasNewLeak: `shoot new -type=A,B` where A has a `shoot: new` mark – B loses its two parameters -/
-theorem C08_F_hasNewLeak_witness :
-    let st := (newStep codeToday {} [] {} wA).1
-    st.hasNew = true ∧ hasNewRelevant st wB = true ∧
-    ((newStep codeToday {} [] st wB).2.map (·.params.length)) = some 0 ∧
-    ((newStep codeToday {} [] {} wB).2.map (·.params.length)) = some 2 := by
-  decide
-
-def wE : NType :=
-  { name := "E", file := "t.shootnew.e.go", gs := [("name", true, true), ("age", true, true)],
-    tree := .field { name := "name", ptype := "string" } (.field { name := "age" } .nil) }
-def wEm : NType :=
-  { name := "A", file := "t.shootnew.a.go", gs := [("id", true, true)],
-    tree := .embed "E" "E" false false (.field { name := "name", ptype := "string" } (.field { name := "age" } .nil)) (.field { name := "id" } .nil) }
-def wJ : NType :=
-  { name := "B", file := "t.shootnew.b.go", gs := [("name", false, true), ("age", true, false), ("z", true, true)],
-    tree := .field { name := "name", ptype := "string" } (.field { name := "age" } (.field { name := "z" } .nil)) }
-/-- the package after E was generated with `-getset`: EGetter / ESetter are visible -/
-def wFiles : Disk :=
-  [{ name := "t.shootnew.e.go", defs := [("EGetter", { methods := ["Age", "Name"] }), ("ESetter", { methods := ["SetAge", "SetName"] })] }]
-
-/-- F_getsetLeak: `shoot new -getset -json -type=E,A,B`, A embeds E – B's MarshalJSON calls a getter and
-    UnmarshalJSON a setter that B does not have -/
-theorem C08_F_getsetLeak_witness :
-    let fl : NFlags := { getset := true, json := true }
-    let st := (newStep codeToday fl wFiles {} wEm).1
-    accRelevant fl st wJ = true ∧
-    ((newStep codeToday fl wFiles st wJ).2.map (fun o => (o.jget, o.jset))) = some (["name", "age", "z"], ["name", "age", "z"]) ∧
-    ((newStep codeToday fl wFiles {} wJ).2.map (fun o => (o.jget, o.jset))) = some (["age", "z"], ["name", "z"]) := by
-  decide
-
 def wMA : MType :=
   { name := "A", src := { fields := ["ID", "Name"] },
     dest := some { fields := [], shootNew := true, ctor := ["id", "name"], getters := ["Id", "Name"], setters := ["SetId", "SetName"] } }
-def wMB : MType := { name := "B", src := { fields := ["ID", "Name", "Note"] }, dest := some { fields := ["ID", "Name", "Note"] } }
-
-/-- F_mapCtorLeak: `shoot map -type=A,B`, dest.A is a `shoot new` type, dest.B is plain – B.ToDest calls a
-    constructor `dest.NewB(b.ID, b.Name)` that does not exist -/
-theorem C08_F_mapCtorLeak_witness :
-    let st := (mapStep codeToday [] {} wMA).1
-    mapCtorRelevant st wMB = true ∧
-    ((mapStep codeToday [] st wMB).2.map (·.toCtor)) = some (some ["ID", "Name"]) ∧
-    ((mapStep codeToday [] {} wMB).2.map (·.toCtor)) = some none := by
-  decide
-
-def wMA0 : MType :=
-  { name := "A", src := { fields := ["ID"] },
-    dest := some { fields := [], shootNew := true, ctor := [], getters := ["Id"], setters := ["SetId"] } }
-def wMB0 : MType := { name := "B", src := { fields := ["ID"] }, dest := some { fields := ["ID"] } }
-
-/-- F_mapAccLeak: same with a ShootNew type without usable constructor – B.ToDest calls `SetId`, a setter
-    of A, instead of assigning the field -/
-theorem C08_F_mapAccLeak_witness :
-    let st := (mapStep codeToday [] {} wMA0).1
-    mapAccRelevant st wMB0 = true ∧
-    ((mapStep codeToday [] st wMB0).2.map (·.toWrites)) = some [("SetId", "ID")] ∧
-    ((mapStep codeToday [] {} wMB0).2.map (·.toWrites)) = some [("ID", "ID")] := by
-  decide
+def wMB : MType :=
+  { name := "B", src := { fields := ["ID", "Name", "Note"] }, dest := some { fields := ["ID", "Name", "Note"] } }
 
 /-! ## the loop -/
 
@@ -146,31 +81,22 @@ theorem C08_generate_solo {σ τ ω : Type} (m : Machine σ τ ω) (hind : State
     (runIndep_of_stateIndep m hind disk ts _)
   simpa [generate] using this
 
-/-- today's code, whole runs (this is region `WF` of the correspondence): when no step of the run meets
-    relevant carried state, `shoot new` over a type list produces what separate processes produce.
-    Missing for the full statement: the leaks (regions F_hasNewLeak, F_getsetLeak). -/
-theorem C08_run_partial (fl : NFlags) (disk : Disk) (ts : List NType)
-    (h : newRunOK fl disk { st := {}, overlay := [], outs := [] } ts = true) :
+/-- the code at HEAD, whole runs: `shoot new` over ANY type list produces what separate processes produce
+    (with `-getset`: each process sees the files the earlier ones wrote; without: nothing is read back) -/
+theorem C08_run (fl : NFlags) (disk : Disk) (ts : List NType) :
     (fl.getset = true → generate (newMachine codeToday fl) disk ts = oneAtATime (newMachine codeToday fl) disk ts) ∧
     (fl.getset = false → generate (newMachine codeToday fl) disk ts
         = ts.filterMap (fun t => (solo (newMachine codeToday fl) disk t).map (fun o => (t, o)))) := by
-  have hr := newRunOK_sound fl disk ts _ h
-  constructor
-  · intro hg
-    have := loop_eq_oneAtATime (newMachine codeToday fl) (fun _ => by simp [newMachine, hg]) disk ts _ hr
-    simpa [generate, effective_nil, newMachine] using this
-  · intro hg
-    have := loop_eq_solo (newMachine codeToday fl) (fun _ => by simp [newMachine, hg]) disk ts _ rfl hr
-    simpa [generate, newMachine] using this
+  have hind : StateIndep (newMachine codeToday fl) := fun files s t => by
+    simp only [newMachine]; exact (C08_reset_today fl files).1 s t
+  exact ⟨fun hg => C08_generate_separate _ hind (fun _ => by simp [newMachine, hg]) disk ts,
+         fun hg => C08_generate_solo _ hind (fun _ => by simp [newMachine, hg]) disk ts⟩
 
-/-- today's code, `map`: likewise (regions F_mapCtorLeak, F_mapAccLeak excluded) -/
-theorem C08_run_map_partial (disk : Disk) (ts : List MType)
-    (h : mapRunOK disk { st := {}, overlay := [], outs := [] } ts = true) :
+/-- the code at HEAD, `map`: likewise for any list of type pairs -/
+theorem C08_run_map (disk : Disk) (ts : List MType) :
     generate (mapMachine codeToday) disk ts
-      = ts.filterMap (fun t => (solo (mapMachine codeToday) disk t).map (fun o => (t, o))) := by
-  have hr := mapRunOK_sound disk ts _ h
-  have := loop_eq_solo (mapMachine codeToday) (fun _ => rfl) disk ts _ rfl hr
-  simpa [generate, mapMachine] using this
+      = ts.filterMap (fun t => (solo (mapMachine codeToday) disk t).map (fun o => (t, o))) :=
+  C08_generate_solo _ (fun files s t => (C08_reset_today {} files).2 s t) (fun _ => rfl) disk ts
 
 /-- permuting the `-type` list permutes the outputs (and so the file map), nothing else.
     Partial with respect to DESIGN §5: proved for the sub-commands that feed nothing back; for
@@ -298,33 +224,28 @@ theorem C08_config_sites :
     classTable.all (fun c => c.2 ≠ Class.config ||
       !Facts.genStateWrites.any (fun w => w.1 = c.1.1 && w.2.2.1 = c.1.2.2 && resetSites.contains w.2.1)) = true := by decide
 
-/-- the leaks of `codeToday` are still in the source: the fields behind them have no plain assignment in
-    `MakeData` (a `fix:` commit that resets one there breaks this theorem on purpose – then flip the
-    corresponding Boolean of `GenState.codeToday`) and their only plain assignment sits where it is today -/
-theorem C08_leaks_unfixed :
-    codeToday = { hasNew := true, newAcc := true, mapCtor := true, mapAcc := true } ∧
-    leakFields.all (fun l =>
-      Facts.genStateWrites.all (fun w => !(w.1 = l.1 && w.2.2.1 = l.2.1 && w.2.2.2 = "set") || w.2.1 = l.2.2)) = true ∧
-    Facts.genStateWrites.all (fun w =>
-      !(w.1 = "internal/constructor" && w.2.2.1 = "getsetMethods") || (w.2.1 = "makeGetSet" && w.2.2.2 = "update")) = true := by
+/-- `codeToday = noLeaks` agrees with the CURRENT source: each of the six formerly carried fields is assigned by a
+    plain assignment in `MakeData` (a removed reset breaks this theorem, and the correspondence) -/
+theorem C08_leaks_fixed :
+    codeToday = noLeaks ∧
+    leakFields.all (fun l => Facts.genStateWrites.any (fun w => w.1 = l.1 && w.2.1 = "MakeData" && w.2.2.1 = l.2 && w.2.2.2 = "set")) = true ∧
+    classTable.all (fun c => c.2 ≠ Class.carried || c.1 = ("internal/shoot", "GeneratorBase", "overlay")) = true := by
   decide
 
-/-! ## non-vacuity: concrete inputs satisfying the hypotheses -/
+/-! ## non-vacuity: concrete inputs -/
 
-/-- `C08_reset_partial`: after A (no mark) the state is irrelevant for B, and B does have parameters -/
-example : let st := (newStep codeToday {} [] {} wB).1
-    hasNewRelevant st wA = false ∧ accRelevant {} st wA = false ∧
-    ((newStep codeToday {} [] st wA).2.map (·.params.length)) = some 1 := by decide
+/-- `C08_reset_today` / `C08_run` on the shape that used to lose its parameters: after A (marked) B keeps both -/
+example : let st := (newStep codeToday {} [] {} wA).1
+    ((newStep codeToday {} [] st wB).2.map (·.params.length)) = some 2 ∧
+    (generate (newMachine codeToday {}) [] [wA, wB]).map (·.2.params.length) = [1, 2] := by decide
 
-/-- `C08_run_partial`: a three-type run (marked type last) whose every step is unaffected -/
-example : newRunOK {} [] { st := {}, overlay := [], outs := [] } [wB, wB, wA] = true := by decide
+/-- and with the model of the code before the fix the same input loses them (what the fix repaired) -/
+example : let st := (newStep codeBeforeFix {} [] {} wA).1
+    ((newStep codeBeforeFix {} [] st wB).2.map (·.params.length)) = some 0 := by decide
 
-/-- `C08_run_map_partial`: plain type first, ShootNew type last -/
-example : mapRunOK [] { st := {}, overlay := [], outs := [] } [wMB, wMA] = true := by decide
-
-/-- `C08_reset_map_partial`: two plain types -/
-example : let st := (mapStep codeToday [] {} wMB).1
-    mapCtorRelevant st wMB0 = false ∧ mapAccRelevant st wMB0 = false := by decide
+/-- `C08_run_map`: shoot-new destination first, plain pair second: no constructor call is left over -/
+example : (generate (mapMachine codeToday) [] [wMA, wMB]).map (·.2.toCtor) = [some ["ID", "Name"], none] ∧
+    (generate (mapMachine codeBeforeFix) [] [wMA, wMB]).map (·.2.toCtor) = [some ["ID", "Name"], some ["ID", "Name"]] := by decide
 
 def xf1 : File :=
   { pkg := "a", comments := [⟨0, 40, "Code generated"⟩, ⟨70, 90, "NewA constructs"⟩, ⟨150, 160, "noop"⟩],
